@@ -28,8 +28,40 @@ enum Tok {
     Many(char),
 }
 
+/// `--alpha cls`: the token alphabet is the class-centred one below and the paths use PATH_ALPHABET_CLS.
+static CLS_MODE: std::sync::atomic::AtomicBool = std::sync::atomic::AtomicBool::new(false);
+
+/// Bracket expressions whose members are characters that mean something inside a character class of the regular
+/// expression syntax the glob is translated to (`&&`, `~~`, `[`, `^`), ranges, and glob wildcards as members. The
+/// documentation says: "matches one of the characters or character ranges given in the square brackets".
+fn token_alphabet_cls() -> Vec<(&'static str, Tok, &'static str)> {
+    vec![
+        ("a", Tok::Lit('a'), "lit"),
+        ("&", Tok::Lit('&'), "lit"),
+        ("~", Tok::Lit('~'), "lit"),
+        ("/", Tok::Sep, "sep"),
+        ("*", Tok::Star, "star"),
+        ("?", Tok::Any1, "qmark"),
+        ("[a-b]", Tok::Class(vec!['a', 'b'], false), "class_range"),
+        ("[!a-b]", Tok::Class(vec!['a', 'b'], true), "negclass_range"),
+        ("[a&&b]", Tok::Class(vec!['a', '&', 'b'], false), "class_amp"),
+        ("[!a&&b]", Tok::Class(vec!['a', '&', 'b'], true), "negclass_amp"),
+        ("[&&a]", Tok::Class(vec!['&', 'a'], false), "class_amp"),
+        ("[a~~b]", Tok::Class(vec!['a', '~', 'b'], false), "class_tilde"),
+        ("[[a]", Tok::Class(vec!['[', 'a'], false), "class_bracket"),
+        ("[a[]", Tok::Class(vec!['a', '['], false), "class_bracket"),
+        ("[a^]", Tok::Class(vec!['a', '^'], false), "class_caret"),
+        ("[.*]", Tok::Class(vec!['.', '*'], false), "class_wild"),
+    ]
+}
+
+const PATH_ALPHABET_CLS: [char; 9] = ['a', 'b', '&', '~', '[', '^', '.', '*', '/'];
+
 /// (source text, semantic token, kind name)
 fn token_alphabet() -> Vec<(&'static str, Tok, &'static str)> {
+    if CLS_MODE.load(std::sync::atomic::Ordering::Relaxed) {
+        return token_alphabet_cls();
+    }
     vec![
         ("a", Tok::Lit('a'), "lit"),
         ("b", Tok::Lit('b'), "lit"),
@@ -704,7 +736,14 @@ pub fn main(args: &[String]) {
         return;
     }
     let pathlen: usize = arg_val(args, "--pathlen").unwrap_or("4").parse().unwrap();
-    let all_paths = if arg_val(args, "--alpha") == Some("ctl") { paths_over(&PATH_ALPHABET_CTL, pathlen) } else { paths_upto(pathlen) };
+    if arg_val(args, "--alpha") == Some("cls") {
+        CLS_MODE.store(true, std::sync::atomic::Ordering::Relaxed);
+    }
+    let all_paths = match arg_val(args, "--alpha") {
+        Some("ctl") => paths_over(&PATH_ALPHABET_CTL, pathlen),
+        Some("cls") => paths_over(&PATH_ALPHABET_CLS, pathlen),
+        _ => paths_upto(pathlen),
+    };
     let paths: Vec<(String, Vec<char>)> = all_paths
         .into_iter()
         .map(|s| {
